@@ -23,7 +23,7 @@ pub fn prop() -> Prop {
         "Cases: a seed-determined workload of inputs (valid generated schemas; the same with token/text mutations; \
          grammatical but semantically arbitrary documents, plain and mutated; an operation document validated against a \
          generated valid schema; operations with several unused / undefined variables and fragments against a generated schema; files of apollo-compiler/test_data, plain and mutated; apollo-smith byte strings), each \
-         regenerated and processed in N fresh processes (quick: 6000 inputs x 4 processes, thorough: 30000 x 16) with per-process hash keys. Oracle: for \
+         regenerated and processed in N fresh processes (quick: 16000 inputs x 4 processes, thorough: 60000 x 16) with per-process hash keys. Oracle: for \
          every input and every observable part (AST serialization and parse errors, Schema serialization, \
          ExecutableDocument serialization, DiagnosticList Display text in order, to_json of every diagnostic, full \
          introspection JSON of valid schemas, apollo-smith output) all processes print the same FNV digest. \
@@ -157,6 +157,18 @@ pub fn observe_text(src: &str, against: Option<&str>) -> Observed {
                     diags = diags.max(e.errors.len());
                 }
             });
+            // 2b. the same text through the builder configured with adopt_orphan_extensions
+            guarded_part("adopt", &mut o.parts, |p| match Schema::builder().adopt_orphan_extensions().parse(src, "input.graphql").build() {
+                Ok(s) => {
+                    p.push(("adopt-schema".into(), s.to_string()));
+                    let names: Vec<String> = s.types.keys().map(|k| k.to_string()).collect();
+                    p.push(("adopt-types".into(), names.join(",")));
+                }
+                Err(e) => {
+                    p.push(("adopt-schema".into(), e.partial.to_string()));
+                    diag_parts("adopt", &e.errors, p);
+                }
+            });
             // 3. the text as a mixed document (schema + executable definitions in one file)
             guarded_part("mixed", &mut o.parts, |p| match apollo_compiler::parser::Parser::new().parse_mixed_validate(src, "input.graphql") {
                 Ok((s, d)) => {
@@ -249,7 +261,32 @@ fn smith_text(bytes: &[u8]) -> String {
 pub fn gen_input(bytes: &[u8]) -> Input {
     let mut c = Choices::new(bytes);
     let opts = gschema::Opts { max_types: 4, ..Default::default() };
-    match c.weighted(&[18, 16, 14, 10, 16, 14, 12, 10]) {
+    match c.weighted(&[10, 10, 8, 6, 10, 8, 8, 8, 16, 10, 6]) {
+        8 => {
+            // C17's pairs: an operation (usually with rule mutations: merge conflicts across inline
+            // fragments on several object types, bad variables, ...) against its schema
+            let case = super::c17::gen_case(&mut c, true);
+            Input { kind: "mutated-operation-vs-schema", text: printer::print_document(&case.doc), against: Some(printer::print_document(&case.schema_doc)), smith: None }
+        }
+        9 => {
+            // C13's definition lists: collisions, kind-mismatched and orphan extensions (also built with
+            // adopt_orphan_extensions, see observe_text)
+            let (defs, _, _) = super::c13::ts_defs(&mut c, 3);
+            let mut text = printer::print_document(&crate::refmodel::ast::Document { defs });
+            for k in 0..c.choose(5) {
+                text.push_str(&format!("extend {} Orph{} {}\n", ["type", "interface", "input"][c.choose(3)], k, "{ x: Int }"));
+            }
+            Input { kind: "extensions-and-orphans", text, against: None, smith: None }
+        }
+        10 => {
+            // C21's chains and cycles: many diagnostics, recursion-limit paths
+            let a = crate::gen::adversary::adversary(&mut c, false);
+            let text = format!("{}\n{}", a.schema, a.exec);
+            if text.len() > 20_000 {
+                return Input { kind: "adversary", text: "type Query { a: Int }".into(), against: None, smith: None };
+            }
+            Input { kind: "adversary", text, against: None, smith: None }
+        }
         7 => {
             // operations whose diagnostics come out of set/map-shaped bookkeeping: several unused and
             // undefined variables, unused and undefined fragments, repeated names
@@ -504,7 +541,7 @@ pub fn check_input(bytes: &[u8], ctx: &mut Ctx) -> Outcome {
 
 fn custom(cfg: &RunCfg) -> CustomReport {
     let mut rep = CustomReport::new();
-    let (count, procs): (u64, usize) = if cfg.tier == Tier::Quick { (6000, 4) } else { (30_000, 16) };
+    let (count, procs): (u64, usize) = if cfg.tier == Tier::Quick { (16_000, 4) } else { (60_000, 16) };
     let count = std::env::var("VERIF_C22_COUNT").ok().and_then(|s| s.parse().ok()).unwrap_or(count);
     // every process regenerates the whole workload; a process is split into `slices` children so that
     // the machine is used, and every (process, slice) child is a fresh process with fresh keys
